@@ -193,3 +193,74 @@ Definition judge_law (c : law_case) : N :=
        + (if res_exact ra r2 then 0 else 8)
        + (if res_same rb ra then 0 else 16))%N
   end.
+
+(* ---- relocation (Props/R.v: R_relocation_partial): the same program assembled at several bases ---------------
+   one case: the program without its `.link`, and per base what the implementation did with `.link b` + program.
+   With the placed statements of the model at the first base: an instruction's first word and every byte of the
+   statements that are not instructions or word data are the same at every base; every other word is the same or
+   moved by the difference of the bases (mod 2^16). *)
+Definition word_rel (delta w w' : Z) : bool := (w =? w') || ((w' - w) mod 65536 =? delta mod 65536).
+
+(* per extension word of an instruction of the class, in operand order: does it move with the base? *)
+Definition opnd_kinds (o : aoperand) : list bool :=
+  match o with
+  | AIndex _ _ | AIndexDef _ _ | ARel _ | ARelDef _ => [false]
+  | AImm e | AAbs e => [is_sym e]
+  | _ => []
+  end.
+Definition word_kind (delta : Z) (k : bool) (w w' : Z) : bool :=
+  if k then (w' - w) mod 65536 =? delta mod 65536 else w =? w'.
+Fixpoint words_kinds (delta : Z) (ks : list bool) (ws ws' : list Z) : bool :=
+  match ks, ws, ws' with
+  | [], [], [] => true
+  | k :: ks', w :: r, w' :: r' => word_kind delta k w w' && words_kinds delta ks' r r'
+  | _, _, _ => false
+  end.
+
+Fixpoint chunk_rel (delta : Z) (its : list item) (img img' : list Z) : bool :=
+  match its with
+  | [] => true
+  | it :: r =>
+      let n := Z.to_nat (i_size it) in
+      let c := firstn n img in let c' := firstn n img' in
+      (match i_stmt it with
+       | Insn m ops =>
+           match Rad50.words_of_bytes c, Rad50.words_of_bytes c' with
+           | w :: ws, w' :: ws' =>
+               let ks := flat_map opnd_kinds ops in
+               (w =? w') && (if Nat.eqb (length ks) (length ws) then words_kinds delta ks ws ws'
+                             else list_eqb (word_rel delta) ws ws')
+           | [], [] => true
+           | _, _ => false
+           end
+       | Word es | WordList es => words_kinds delta (map is_sym es) (Rad50.words_of_bytes c) (Rad50.words_of_bytes c')
+       | _ => list_eqb Z.eqb c c'
+       end)
+      && chunk_rel delta r (skipn n img) (skipn n img')
+  end.
+
+Definition reloc_case : Type := (program * list (Z * obs))%type.
+
+(* bit 0  model <> implementation at some base;  bit 1  the REAL images violate the relocation law;
+   bit 2  the program is outside the class reloc_ok (only bit 0 judged);  bit 4  the MODEL's images violate it;
+   bit 5  the model answers Unsupported *)
+Definition judge_reloc (c : reloc_case) : N :=
+  let '(rest, obss) := c in
+  let runs := map (fun bo => (fst bo, snd bo, run_full (at_base (fst bo) rest))) obss in
+  if existsb (fun r => match snd r with XUnsup _ => true | _ => false end) runs then 32%N else
+  let corr := forallb (fun r => match snd r with
+                                | XOk f => agrees (XOk (f_base f, concat (f_chunks f), f_syms f)) (snd (fst r))
+                                | XErr e => agrees (XErr e) (snd (fst r))
+                                | _ => false end) runs in
+  if negb (reloc_ok rest) then ((if corr then 0 else 1) + 4)%N else
+  match runs with
+  | (b0, ObsOk _ img0, XOk f0) :: others =>
+      let real := forallb (fun r => match r with
+                                    | (b, ObsOk _ img, _) => (length img =? length img0)%nat && chunk_rel (b - b0) (f_items f0) img0 img
+                                    | _ => true end) others in
+      let model := forallb (fun r => match r with
+                                     | (b, _, XOk f) => chunk_rel (b - b0) (f_items f0) (concat (f_chunks f0)) (concat (f_chunks f))
+                                     | _ => true end) others in
+      ((if corr then 0 else 1) + (if real then 0 else 2) + (if model then 0 else 16))%N
+  | _ => (if corr then 0 else 1)%N
+  end.
